@@ -36,7 +36,7 @@ def h_line(L: int, N: int, d: int, off0: int, form: bool) -> bool:
 
 def h_line_name(fname: str, form: bool, L: int) -> bool:
     """
-    pre: 1 <= len(fname) <= 4
+    pre: 1 <= len(fname) <= 7
     pre: all(c not in fname for c in (chr(34), chr(10), chr(13)))
     pre: 1 <= L <= 3
     post: _
@@ -368,9 +368,9 @@ def run(tier):
         tw = chrun.run(__name__, "h_line", [()], timeout=60, globs=dict(TWIN=True), pool=pool)
         chrun.record(ck, tw, "#line arithmetic reachability twin", expect="refuted")
         res = chrun.run(__name__, "h_line", [()], timeout=(120 if tier == "quick" else 600), pool=pool)
-        chrun.record(ck, res, "#line arithmetic on the real t_PP_DIRECTIVE / _line_re / current_location", bound="all integers, both spellings, names <= 4 chars")
+        chrun.record(ck, res, "#line arithmetic on the real t_PP_DIRECTIVE / _line_re / current_location", bound="all integers, both spellings")
         resn = chrun.run(__name__, "h_line_name", [()], timeout=(90 if tier == "quick" else 600), pool=pool)
-        chrun.record(ck, resn, "#line: the reported file name is exactly the quoted name", bound="all names <= 4 chars without quote/newline, both spellings")
+        chrun.record(ck, resn, "#line: the reported file name is exactly the quoted name", bound="all names <= 7 chars without quote/newline, both spellings")
         res0 = chrun.run(__name__, "h_noline", [()], timeout=60, pool=pool)
         chrun.record(ck, res0, "no directive: reported line == physical line (fresh lexer offset 0)", bound="all integers")
         import concurrent.futures as _cf
